@@ -146,7 +146,7 @@ class AndersonCD(BaseSolver):
 
             # re init AA at every iter to consider ws
             accelerator = AndersonAcceleration(K=5)
-            w_acc[:] = 0.
+            w_acc[:] = w  # features outside ws keep their value (they are not updated)
             # ws to be used in AndersonAcceleration
             ws_intercept = np.append(ws, -1) if self.fit_intercept else ws
 
